@@ -53,7 +53,7 @@ META = {
     "rule": "5-12 ops per run: transmit 1-40 bytes (runs of FFh, stuffing at byte/packet end), receive 1-24 bytes with per-packet phase "
             "and ppm, bitstuff_error, op_mode 1/2 with tx_valid, term_select / pull-down requests; usb edge alignment k per run",
 }
-TIERS = {"quick": {"runs": 1200, "wall": 75, "chunk": 8}, "thorough": {"runs": 6000, "wall": 900, "chunk": 8}}
+TIERS = {"quick": {"runs": 2400, "wall": 75, "chunk": 8}, "thorough": {"runs": 6000, "wall": 900, "chunk": 8}}
 
 VALID_PIDS = [0xD2, 0x5A, 0x1E, 0xC3, 0x4B, 0x69, 0xE1, 0x2D, 0xA5, 0x96, 0x3C, 0x78, 0xB4, 0xF0]
 
